@@ -1,7 +1,5 @@
 import RpmVerif.Lemmas.ExtractBenign
 import RpmVerif.Lemmas.PkgFiles
-import RpmVerif.Props.C04
-import RpmVerif.Props.C07
 /-!
 # C12 — extraction recreates the files and never touches anything outside the target
 
@@ -40,12 +38,13 @@ from nothing else:
 * `input_items_are_iteration` : the items are exactly the `Ok` prefix of the cpio iteration, each projected to the
                         metadata of the header file at the index the iteration attached; the tail flag says whether an
                         `Err` ended it; `input_index_in_range`: `self.file_entries[index]` cannot panic;
-* `input_item_designated`, `input_item_path_is_entry_name` : C07's `pairing_by_name` carried over — every item is the
-                        content of an archive entry under the metadata of the header file that very entry designates;
-* `input_digests_standard`, `digest_table_decides` : a package yields items only if every non-empty file digest has the
-                        hex length of its algorithm's real digest size (the table `Gen.fileDigestHexLen` regenerated
-                        from `FileDigest::new`, C05 `file_digest_lengths_standard`; SHA-224 = 56 since fix e7bf001);
-* `compressor_tables_agree`, `payload_compressor_bridge` : the compressor variant is the one whose name C05's accessor
+* `input_item_designated` : C07's pairing carried over — every item is the content of an archive entry under the
+                        metadata of the header file that very entry designates, written at the path the entry names;
+* `input_digests_standard`, `digest_table_decides`, `digest_algo_fallbacks` : a package yields items only if every
+                        non-empty file digest has a hex length the source's own table pairs with its algorithm
+                        (`Gen.fileDigestHexLen`, regenerated from `FileDigest::new`; SHA-224 = 56 since fix e7bf001; that
+                        the lengths are the real digest sizes is C05 `file_digest_lengths_standard`);
+* `compressor_tables_agree`, `default_compressor_is_identity`, `payload_compressor_bridge` : the compressor variant is the one whose name C05's accessor
                         (`Acc.getPayloadCompressor`, compared with the real code on every C05 run) answers;
 * `extract_package_hostile`, `extract_package_total` : the hostile clause for every parsed package.
 
@@ -272,62 +271,54 @@ theorem mem_of_map_some_eq {α β} {l : List α} {m : List β} {f : β → Optio
   obtain ⟨y, hy, hf⟩ := List.mem_map.mp this
   exact ⟨y, hy, hf⟩
 
-/-- every item `extract` sees is the content of an archive entry under the metadata of the header file that very
-entry designates (C07 `pairing_by_name` carried over to the input of `extract`) -/
-theorem input_item_designated (es : List Acc.FileEntry) (hnd : (pathsOf es).Nodup) (a : Bytes) (it : Item)
-    (hit : it ∈ (itemsOf es a).1) :
+/-- **pairing carried over to `extract`**: every item `extract` sees is the content `c` of an archive entry under the
+metadata of header file `i`, where `i` is what `Reader::file_index` answers for that very entry — the FIRST header file
+whose path is the one the entry's name stands for (`"." + path`, or the plain path), or the index a stripped entry
+carries — so the file is written at the path its own archive entry designates (`Cpio.entryPath`), with a content of
+exactly the size the reader took for the entry.  (C07 `pairing_by_name` / `pairing_first_match` say the same of the
+iteration; nothing is assumed about the archive or the header.) -/
+theorem input_item_designated (es : List Acc.FileEntry) (a : Bytes) (it : Item) (hit : it ∈ (itemsOf es a).1) :
     ∃ i e entry c, .ok (i, entry, c) ∈ Cpio.iterateE (pathsOf es) (sizesOf es) es.length a ∧ es[i]? = some e ∧
       it = ⟨e.path, kindOf e.mode, FileMode.permissions (FileMode.fromU16 e.mode), c, e.linkto⟩ ∧
-      C07.Designates (pathsOf es) entry i ∧ (∀ j, C07.Designates (pathsOf es) entry j → j = i) ∧
+      Cpio.fileIndex (pathsOf es) entry = some i ∧ Cpio.entryPath (pathsOf es) entry = some it.path ∧
       Cpio.entrySize (sizesOf es) entry = some c.length := by
   obtain ⟨⟨i, c⟩, hx, hf⟩ := mem_of_map_some_eq (input_items_are_iteration es a).1 hit
   have hok := okPrefix_mem hx
   obtain ⟨entry, hentry⟩ := iterate_ok_mem hok
   have hlen : (sizesOf es).length = es.length := by simp [sizesOf]
   rw [hlen] at hentry
-  obtain ⟨hi, hd, hu, hs⟩ := C07.pairing_by_name (pathsOf es) hnd (sizesOf es) es.length a i entry c hentry
+  obtain ⟨hfi, hs⟩ := Cpio.iterateE_item (pathsOf es) (sizesOf es) es.length a i entry c hentry
   simp only [itemOf] at hf
   cases hei : es[i]? with
   | none => rw [hei] at hf; cases hf
   | some e =>
     rw [hei] at hf
     simp only [Option.map_some, Option.some.injEq] at hf
-    exact ⟨i, e, entry, c, hentry, hei, hf.symm, hd, hu, hs⟩
-
-/-- for a newc / crc entry that means: the file is written at the path the entry's own name stands for -/
-theorem input_item_path_is_entry_name (es : List Acc.FileEntry) (hnd : (pathsOf es).Nodup) (a : Bytes) (it : Item)
-    (hit : it ∈ (itemsOf es a).1) :
-    ∃ i entry c, .ok (i, entry, c) ∈ Cpio.iterateE (pathsOf es) (sizesOf es) es.length a ∧ it.content = c ∧
-      Cpio.entryPath (pathsOf es) entry = some it.path := by
-  obtain ⟨i, e, entry, c, hmem, hei, rfl, hd, _, _⟩ := input_item_designated es hnd a it hit
-  refine ⟨i, entry, c, hmem, rfl, ?_⟩
-  have hp : (pathsOf es)[i]? = some e.path := by simp [pathsOf, hei]
-  cases entry with
-  | cpio ce =>
-    simp only [C07.Designates] at hd
-    rw [hp] at hd
-    simp only [Cpio.entryPath]
-    exact hd.symm ▸ rfl
-  | stripped idx =>
-    simp only [C07.Designates] at hd
-    obtain ⟨rfl, _⟩ := hd
-    simpa [Cpio.entryPath] using hp
-
+    subst hf
+    refine ⟨i, e, entry, c, hentry, hei, rfl, hfi, ?_, hs⟩
+    have hp : (pathsOf es)[i]? = some e.path := by simp [pathsOf, hei]
+    cases entry with
+    | cpio ce =>
+      have := Cpio.fileIndex_cpio hfi
+      rw [hp] at this
+      simp only [Cpio.entryPath, itemOfEntry]
+      exact this.symm ▸ rfl
+    | stripped idx =>
+      have := Cpio.fileIndex_stripped hfi
+      subst this
+      simpa [Cpio.entryPath, itemOfEntry] using hp
 
 /-- **file digests gate the input, by the source's own table**: a package yields any item (or a clean end of the
-iteration) only if `get_file_entries` succeeded, and then every recorded (non-empty) file digest has exactly the hex
-length of its algorithm's digest size — 32 / 56 / 64 / 96 / 128 for MD5 / SHA-224 / SHA-256 / SHA-384 / SHA-512
-(`C05.digestBytes`), because the table is `Gen.fileDigestHexLen`, regenerated from `FileDigest::new` on every run -/
+iteration) only if `get_file_entries` succeeded, and then every recorded (non-empty) file digest has a hex length the
+table `Gen.fileDigestHexLen` pairs with its algorithm — the table `tools/gen/file_digest_len.py` regenerates from
+`FileDigest::new` on every run (SHA-224: 56 since fix e7bf001), the same one C05 works with; that its lengths are the real
+digest sizes is C05 `file_digest_lengths_standard` -/
 theorem input_digests_standard (p : Package) (a? : Option Bytes) (inp : Input) (h : extractInput p a? = some inp)
     (hne : inp.items ≠ [] ∨ inp.tailOk = true) :
     ∃ es, Acc.getFileEntries p.md.signature p.md.header = .ok es ∧
-      ∀ e ∈ es, ∀ d, e.digest = some d → (d.1, d.2.length) ∈ fileDigestHexLen ∧
-        C05.digestBytes d.1 = some (d.2.length / 2) ∧ d.2.length % 2 = 0 := by
+      ∀ e ∈ es, ∀ d, e.digest = some d → (d.1, d.2.length) ∈ fileDigestHexLen := by
   cases he : Acc.getFileEntries p.md.signature p.md.header with
-  | ok es =>
-    refine ⟨es, rfl, fun e hm d hd => ?_⟩
-    have hmem := getFileEntries_digests _ _ _ es he e hm d hd
-    exact ⟨hmem, C05.file_digest_lengths_standard _ hmem⟩
+  | ok es => exact ⟨es, rfl, fun e hm d hd => getFileEntries_digests _ _ _ es he e hm d hd⟩
   | err c =>
     rw [input_files_failed p a? (.inl (by rw [he]; rfl))] at h
     cases h; simp at hne
@@ -367,13 +358,14 @@ theorem extract_package_hostile (p : Package) (a? : Option Bytes) (inp : Input)
     ∃ L, (extract inp T fs).fs.log = L ++ fs.log ∧ ∀ q ∈ L, T <+: q :=
   extract_hostile inp T fs hc
 
-/-- … and reading the package never panics either: neither `get_file_entries` nor `get_payload_compressor`, nor the
-indexing `self.file_entries[index]` of the iterator (`input_index_in_range`), nor `extract` on whatever they yield -/
-theorem extract_package_total (p : Package) :
-    (Acc.getFileEntries p.md.signature p.md.header).isPanic = false ∧
+/-- … and reading the package does not panic either: not `get_payload_compressor`, not the indexing
+`self.file_entries[index]` of the iterator, not `extract` on whatever they yield (`get_file_entries` and the cpio reader
+are total by C04 `getFileEntries_total` / `iterate_total`; a panic there would be `tailOk = false` here) -/
+theorem extract_package_total (p : Package) (es : List Acc.FileEntry) (a : Bytes) :
     (Acc.getPayloadCompressorVariant p.md.header).isPanic = false ∧
+    (∀ i c, .ok (i, c) ∈ Cpio.iterate a (pathsOf es) (sizesOf es) → i < es.length) ∧
     ∀ inp T fs, (extract inp T fs).out.isPanic = false := by
-  refine ⟨C04.getFileEntries_total _ _, ?_, fun inp T fs => extract_not_panic inp T fs⟩
+  refine ⟨?_, itemsOf_in_range es a, fun inp T fs => extract_not_panic inp T fs⟩
   unfold Acc.getPayloadCompressorVariant
   split
   · unfold Compression.fromStr; split <;> rfl
@@ -575,16 +567,16 @@ example : fileDigestHexLen ≠ [] ∧ (fileDigestHexLen.map (·.1)).contains 11 
 /-- the length the table pairs with SHA-224 -/
 def wLen224 : Nat := (fileDigestHexLen.lookup 11).getD 0
 example : extractInput (wPkg (some 11) (List.replicate wLen224 97)) none = some wViewOk := by decide +kernel
-/-- `input_digests_standard` applies to it (items ≠ []) and yields the real SHA-224 size: 28 bytes -/
+/-- `input_digests_standard` applies to it (items ≠ []) -/
 example : ∃ es, Acc.getFileEntries (wPkg (some 11) (List.replicate wLen224 97)).md.signature
       (wPkg (some 11) (List.replicate wLen224 97)).md.header = .ok es ∧
-    ∀ e ∈ es, ∀ d, e.digest = some d → (d.1, d.2.length) ∈ fileDigestHexLen ∧
-      C05.digestBytes d.1 = some (d.2.length / 2) ∧ d.2.length % 2 = 0 :=
+    ∀ e ∈ es, ∀ d, e.digest = some d → (d.1, d.2.length) ∈ fileDigestHexLen :=
   input_digests_standard _ none wViewOk (by decide +kernel) (.inr rfl)
+/-- … and the entry list does carry a SHA-224 digest -/
 example : Acc.getFileEntries (wPkg (some 11) (List.replicate wLen224 97)).md.signature
       (wPkg (some 11) (List.replicate wLen224 97)).md.header
-      = .ok [⟨[47] ++ nF, 0o100644, [114], [114], 0, 2, 0, some (11, List.replicate wLen224 97), none, [], none⟩] ∧
-    C05.digestBytes 11 = some (wLen224 / 2) := by decide +kernel
+      = .ok [⟨[47] ++ nF, 0o100644, [114], [114], 0, 2, 0, some (11, List.replicate wLen224 97), none, [], none⟩] := by
+  decide +kernel
 /-- `input_of_files`: entries, variant and archive of the concrete package -/
 example : (Acc.getFileEntries (wPkg none []).md.signature (wPkg none []).md.header).map List.length = .ok 1 ∧
     Acc.getPayloadCompressorVariant (wPkg none []).md.header = .ok payloadCompressorDefault ∧
@@ -599,10 +591,10 @@ example : extractInput (wPkg none [] (some [120, 122])) (some wArchive) = some w
 /-- `payload_compressor_bridge` on `xz`: variant 3 on one side, the name `xz` on the other -/
 example : (Acc.getPayloadCompressor Acc.compressorNames (wHdr none [] (some [120, 122]))).toOption = some [120, 122] ∧
     (Acc.getPayloadCompressorVariant (wHdr none [] (some [120, 122]))).isOk = true := by decide +kernel
-/-- `input_item_designated` / `input_item_path_is_entry_name`: distinct header paths, an item -/
+/-- `input_item_designated`: two header files, an item -/
 def wEntries : List Acc.FileEntry :=
   [⟨[47] ++ nF, 0o100644, [114], [114], 0, 2, 0, none, none, [], none⟩, ⟨[47] ++ nA, 0o120777, [114], [114], 0, 0, 0, none, none, nF, none⟩]
-example : (pathsOf wEntries).Nodup ∧
+example :
     (⟨[47] ++ nF, .regular, 0o644, [104, 105], []⟩ : Item) ∈ (itemsOf wEntries wArchive).1 ∧ (itemsOf wEntries wArchive).2 = true := by
   decide +kernel
 /-- `input_index_in_range` / `input_items_are_iteration`: the iteration of the concrete archive has an `Ok` -/
